@@ -11,6 +11,7 @@ import gridlib as gl
 import rltie
 import vlib
 import c08tables
+import c08points
 
 LEVEL = "proof"
 PID = "C08"
@@ -415,6 +416,8 @@ def run(res, tier, seed, replay_script=None):
     # tensor selection of the six integer depth types and the declared polynomial space, with the exactness tables regenerated from the source
     if not replay_script:
         c08tables.run(res, tier, seed)
+        # the point sets of Global / Fourier grids: generateNestedPoints, active tensors, needed = new minus loaded (Properties_C08_points.v, exact tie)
+        c08points.run(res, tier, seed)
     rltie.report(res, rl_break)
     if proof_broken and not res.violations:
         res.violation("proof", "proof obligations of Properties_C08.v no longer check (%d/%d) %s" % (props["discharged"], props["obligations"], res.coverage["forbidden_tokens"][:2]),
@@ -441,6 +444,9 @@ def replay(path):
     import json
     rp = json.load(open(path))
     res = vlib.Result(PID, "quick", rp.get("seed", 1), LEVEL)
+    if rp.get("driver") == "nptsdrv":
+        c08points.run(res, "quick", rp.get("seed", 1), replay_cases=rp.get("cases"))
+        return res.finish()
     if rp.get("driver") == "seltabdrv":
         c08tables.run(res, "quick", rp.get("seed", 1), replay_cases=rp.get("cases"))
         return res.finish()
